@@ -30,6 +30,26 @@ register("C02", "TLA+ abstract DesignSpace + implementation-shaped refinement (c
          "TLC checks the algebra of views (normalisation bijection, gradient scaling, membership/projection, lossless conversions, index partition) on every reachable abstract state and the coherence of every cached/derived variable of the implementation-shaped module (with the refinement mapping); every transition of the bounded Impl graph is executed on a real DesignSpace and ~25 public views are compared exactly with TLC's values after each step; the rules 'as coded before the fixes' are refuted by TLC on every run (non-vacuity).",
          "Trusted: TLC; eighths lattice with power-of-two widths (exact in doubles); projection through public accessors on deep copies. Dict key order and dtypes are not compared. Bounded: <=3 variables, sizes<=3, depth 4-5 (+ depth-12 simulations).",
          "DESIGN.md section 4 C02, 9.4")
+register("C11", "TLA+ abstract database store/export/load model + file-layout refinement of _hdf_database.py (refinement checked by TLC); transition tour replayed on real Databases with real HDF5 files (reload + raw h5py layout vs TLC state); recorded histories validated by HDFStoreTrace.tla; design-space and cache file models",
+         "TLC checks RoundTrip, AppendEqualsFull, IndexConsistency and the refinement HDFStoreImpl => HDFStore on every store/store-more/export(append|full)/load history of the bounded model; every transition of the implementation graph is executed on a real Database (root and nested node, also owned by an OptimizationProblem) and after each export the reloaded database, the raw HDF5 layout and the problem description are compared with TLC's state; random store/export histories recorded from the real code are validated by a trace specification; DesignSpaceFile.tla / HDFCacheFile.tla cover design-space CSV/HDF5 files and cache reopening.",
+         "Trusted: TLC, h5py. Values are distinguishable exactly representable floats. Overwriting an existing output with a different value between exports and deletions are outside the property. Bounded: <=3 keys, <=5 names per model configuration.",
+         "DESIGN.md section 4 C11, 9.4")
+register("C14", "TLA+ model of the DOE pipeline around the opaque sampler (seeder, integer-normalisation toggle, affine image, rounding, count rules per family) checked by TLC; call histories from the model replayed; recorded calls of all 30 DOE algorithms validated by DOETrace.tla with a monitor of the UnitCube assumption",
+         "TLC checks the pipeline invariants (in bounds, integral, image of the unit samples, count rule per algorithm family, seed rule, determinism, flag restored) for every sampler satisfying the UnitCube assumption over bounded call histories; all algorithms of the DOE factory x spaces x sample counts x seeds x seeder histories are recorded and every call is judged clause by clause by the trace specification, which also monitors the assumption on what the wrappers return.",
+         "Trusted: TLC; the sampling libraries are opaque (assumption UnitCube, monitored). Off-grid samples are compared through exact three-way comparison codes computed with fractions. The flag left on after a call that raised is reported as an observation, not a violation.",
+         "DESIGN.md section 4 C14, 9.4")
+register("C15", "TLA+ abstract grammar algebra + implementation-shaped model (validator snapshot, cached schema, required-names object) checked by TLC; transition tours, staleness paths and simulated histories replayed on JSONGrammar/SimpleGrammar/PydanticGrammar; probe verdicts computed by TLC and cross-checked with the reference jsonschema validator",
+         "TLC checks WellFormed, QueriesPure, NoStaleValidator, NoSharing and export correctness on every edit history of the bounded models; every transition (plus 'fill a view, edit, query again' paths and random deep histories) is executed on real grammars and keys/required names/defaults/namespaces, validate() on ~60 state-dependent probe dictionaries, to_json()/schema and to_simple_grammar() are compared with what TLC computed; the exported schemas and probes are also judged by the reference jsonschema validator (three-way agreement), as are the 25 JSON grammar files shipped with gemseo.",
+         "Trusted: TLC; reference jsonschema run under python3-vt; HasType is per grammar class (JSON-schema typing after gemseo's cast / isinstance). Genson merge corner cases listed in the evidence assumptions are outside the modelled merge algebra.",
+         "DESIGN.md section 4 C15, 9.4")
+register("C16", "TLA+ exact dyadic model of forward/centred/complex-step quotients, perturbation placement and bound handling, enumerated as initial states and checked by TLC; every instance replayed on the real approximators, disciplines and problems with point-logging functions",
+         "TLC checks Shape, WithinBounds, OneComponent and ErrorEqualsOrderTerm (the truncation error equals the method's order term) on every enumerated instance (methods x subsets x steps x points on/near bounds x design-space modes); every instance is executed on the real FirstOrderFD/CenteredDifferences/ComplexStep (serial, processes, threads), DisciplineJacApprox, linearization modes, check_jacobian(indices) and OptimizationProblem differentiation; values equal the specification's dyadic numbers exactly (complex step 1e-12) and the logged evaluation points equal the specification's set.",
+         "Trusted: TLC; exact dyadic slice (polynomials of degree <=3, steps 2^-3..2^-6). Round-off regime, non-polynomial functions and the optimal-step estimator are not covered. D20 (thread back-end of the approximators) is a recorded finding.",
+         "DESIGN.md section 4 C16, 9.4")
+register("C17", "TLA+ exact model of MDF/IDF/DisciplinaryOpt/BiLevel views of enumerated linear coupled systems (unimodular I-B) checked by TLC; every instance built as real formulations and compared (spaces, values, Jacobians, masks, rejections)",
+         "TLC checks SpacesExact, RejectExact, SameValues, ConsistencyVanishes, ConsistentDerivatives, EquilibriumConsistent, DOptAgrees on every enumerated system (12 topologies, sizes 1-2, dyadic coupling bounds); each instance is built as real formulations on harness disciplines and design-space variable names, constraint counts, objective/constraint values and Jacobians at lattice points, input masks, IDF start-at-equilibrium values and IDF rejections are compared with TLC's records; two convex quadratic instances check that MDF and IDF reach the optimum the specification knows.",
+         "Trusted: TLC; exact slice (integer blocks, unimodular residual Jacobian); MDF quantities to 1e-9 with MDA tolerance 1e-14. BiLevel only for variable sets.",
+         "DESIGN.md section 4 C17, 9.4")
 register("C12", "TLA+ crash/restart model of the history backup checked by TLC (every crash point, both backup modes, repeated crashes); BackupTrace.tla validates recorded scenario traces and predicts the file at every discipline execution; children killed in exactly those executions and restarted",
          "Exhaustive model checking of the backup protocol (store -> listeners -> export, crash only while a discipline executes, restart from the file) for bounded runs, plus conformance: traces of real MDO/DOE scenarios are validated by the trace specification, which also predicts the backup file content at every discipline execution; a child process is killed inside that execution and the real HDF5 file must load and equal the prediction (names and values); the restarted child is traced and validated again (no rework, loaded entries kept, same history and optimum when replay is exact), including a second crash on a file that already holds earlier data.",
          "Trusted: TLC, h5py durability of completed writes, os._exit as the crash model (inside Discipline._run only). Restart uses load=True and reset_iteration_counters=False. An existing file with neither load nor erase is outside the documented usage and not exercised. eachIter exactness is at the option's granularity (DESIGN.md C12 note).",
